@@ -19,6 +19,7 @@ package c23
 import (
 	"fmt"
 	"reflect"
+	"strconv"
 	"strings"
 	"sync/atomic"
 	"testing"
@@ -289,7 +290,11 @@ func genParams(t *rapid.T, bind, safe bool) []Param {
 			if p.HasDefault || p.HasDesc {
 				p.PostFields = rapid.SampledFrom(breaks).Draw(t, "post_fields")
 			} else {
-				p.PostType = rapid.SampledFrom(breaks).Draw(t, "post_type")
+				// mostly nothing: anything else is rejected on the unchanged
+				// tree (known finding) and would hide the rest of the case
+				if rapid.IntRange(0, 9).Draw(t, "post_type_any") == 9 {
+					p.PostType = rapid.SampledFrom(breaks).Draw(t, "post_type")
+				}
 			}
 		}
 		ps = append(ps, p)
@@ -315,8 +320,10 @@ func gen(t *rapid.T) Case {
 	if last.Type == "" {
 		// after a bare name the grammar wants a comma or the end: no blanks
 		c.Tail = ""
-	} else {
+	} else if last.HasDefault || last.HasDesc || rapid.IntRange(0, 9).Draw(t, "tail_break_after_type") == 9 {
 		c.Tail = rapid.SampledFrom(breaks).Draw(t, "tail")
+	} else {
+		c.Tail = rapid.SampledFrom(blanks).Draw(t, "tail")
 	}
 	if c.Mode == "parse-neg" {
 		c.Neg = rapid.SampledFrom(negKinds).Draw(t, "neg")
@@ -631,6 +638,18 @@ func (c Case) tabInField() bool {
 	return false
 }
 
+// tabsAsBlanks is the case with every tab in a default or description
+// replaced by a blank (what the parser makes of it on the unchanged tree).
+func (c Case) tabsAsBlanks() Case {
+	d := c
+	d.Params = append([]Param{}, c.Params...)
+	for i := range d.Params {
+		d.Params[i].Default = strings.ReplaceAll(d.Params[i].Default, "\t", " ")
+		d.Params[i].Desc = strings.ReplaceAll(d.Params[i].Desc, "\t", " ")
+	}
+	return d
+}
+
 func known(c Case, v *core.Violation) string {
 	switch {
 	case v.Kind == "parse-rejected" && c.bareTypeShape() &&
@@ -641,8 +660,16 @@ func known(c Case, v *core.Violation) string {
 			strings.Contains(v.Msg, "cannot parse function parameter block: unexpected comma")):
 		// the same rejection, seen through `function name (sig) {..}`
 		return knownBareType
-	case (v.Kind == "parse-mismatch" || v.Kind == "bind-mismatch") && c.tabInField():
-		return knownTabInField
+	case v.Kind == "parse-mismatch" && c.tabInField():
+		// explained completely by tab -> blank in defaults / descriptions?
+		got, err, p := parse(c.signature())
+		if err == nil && p == nil && reflect.DeepEqual(got, c.tabsAsBlanks().expectedParams()) {
+			return knownTabInField
+		}
+	case v.Kind == "bind-mismatch" && c.tabInField():
+		if want, fails := c.tabsAsBlanks().bindModel(); !fails && strings.Contains(v.Msg, "got  stdout="+strconv.Quote(want)+"\n") {
+			return knownTabInField
+		}
 	case v.Kind == "parse-accepted" && c.Neg == "stray-bracket-in-name":
 		return knownStrayBracket
 	}
